@@ -28,7 +28,7 @@ CHECKS = {
  "C09": ("offline trace checker: the records made under each sampling policy must be exactly the contract's selection over the engine's own step sequence (obtained under on_iteration and cross-read through the raw exports), compared on raw bytes",
          "For each generated script the step sequence (T_k, X_k) is taken from an on_iteration run read step by step through engineexport_get_time/get_state; the policy under test (driven in random chunks, optionally with explicit sample() calls) must record required subset <= actual <= permitted selection with bit-identical times and states in (sample, species, cell) order; fixed-step clock n*dt, completion at the first step beyond t_max, progress and completion flags are checked after every iterate.",
          "Sorted request lists only. Engine-side doubles of the time quantities are obtained through the library's conversion and cross-checked against the SI description (1e-12).", "DESIGN.md 2/C09"),
- "C10": ("sandboxed lifecycle driver checked against a reference state machine: exhaustive short call sequences + random long ones on one engine, random interleavings over two engine objects compared with single-engine projections, CPU-time termination monitor",
+ "C10": ("sandboxed lifecycle driver checked against a reference state machine: exhaustive short call sequences + random long ones on one engine, random interleavings over two engine objects compared with single-engine projections, CPU-time termination monitor, allocator monitor (mallinfo2 + tracemalloc) over windows of set-up / release cycles",
          "All call sequences of length 3 (quick) / 4 (thorough) over an 14-call alphabet after setup, per engine kind, plus thousands of random sequences of length 5-12: after every call the model predicts steps taken (raw clock), record count, completion flag, return value and the exact output bytes. Two-engine interleavings (each in a fresh process) are compared call by call with each engine run alone. Set-up and loop termination is decided on CPU time for below-one / fractional / macroscopic amounts under every init mode.",
          "'Returns' means within a CPU budget >= 1000x the typical cost. Calls on a released engine other than setup/finalize/is_complete are outside the statement. Known finding C10/shared-native-state is keyed on the call pattern, single-engine histories are never excused.", "DESIGN.md 2/C10"),
  "C12": ("round-trip monitor with an independent field-by-field extractor of physical content (SI via vf/si.py) over dict, JSON text and file paths (single and multi-file layouts loaded from another working directory)",
@@ -37,7 +37,7 @@ CHECKS = {
  "C13": ("reference-model monitor (density x volume from the SI description) + frame-condition contracts on the setters (whole-array snapshots)",
          "Every (species, cell) entry of the default state and chemostat map of generated systems (species, network, space, nodes and system each in their own unit system; asymmetric grid shapes) is compared with the description; every addressing form of the getters/setters is exercised on arrays tagged with distinct numbers, with whole-array before/after snapshots.",
          "Override dictionaries and reset_state are outside the statement (found broken, see DESIGN.md).", "DESIGN.md 2/C13"),
- "C14": ("exact-arithmetic oracle on the recorded t=0 state + sequential statistical monitors (Ville mean test, randomised PIT + DKW) with a stated false-alarm bound + CPU-time termination monitor",
+ "C14": ("exact-arithmetic oracle on the recorded t=0 state + sequential statistical monitors (Ville mean test, randomised PIT + DKW) with a stated false-alarm bound + CPU-time termination monitor, allocator monitor (mallinfo2 + tracemalloc) over windows of set-up / release cycles",
          "Thousands of set-ups of rectangular asymmetric states (below one molecule, integers around 100, fractional, large, sparse) x 4 modes x 3 engines x grid/graph: integrality, floor totals (judged only when exact and float sums agree), zero-stays-zero, pass-through bytes, reproducibility per seed, Poisson counts vs Poisson(amount of that entry).",
          "False-alarm probability <= 3e-12 per run; power: a relative error of a few percent in the Poisson mean is detected within the quick tier.", "DESIGN.md 2/C14"),
  "C15": ("exhaustive reference-model monitor over all grids w,h,d in 1..4 x 8 boundary mixes (every cell, cell pair, out-of-range position), neighbour sets revealed by the Python kinetics and by one native Euler step, grid vs grid_to_graph equivalence",
